@@ -19,6 +19,7 @@ import (
 	"strings"
 
 	evymain "evylang.dev/evy"
+	"evylang.dev/evy/pkg/evaluator"
 	"evylang.dev/evy/vdrv/core"
 	"evylang.dev/evy/vdrv/gen"
 	"evylang.dev/evy/vdrv/l2"
@@ -331,6 +332,12 @@ func (d *D) checkL2(sc *core.Scenario, ctx *core.Ctx) *core.Violation {
 			Observed: map[string]any{"panic": trunc(r.HostPanic, 300), "top_evy_frame": r.TopFrame, "events_delivered": len(r.Calls)},
 			Match:    map[string]string{"outcome": "host-panic", "top_evy_frame": r.TopFrame, "value": sigOf(r.HostPanic)}}
 	}
+	if ctx != nil {
+		ctx.Inc("typemon_checks", r.TypeMonChecks)
+	}
+	if v := typeMonViolation(r.TypeMon, "L2"); v != nil {
+		return v
+	}
 	for _, e := range r.Errors {
 		if strings.Contains(e, "internal error") && len(r.Registered)+len(r.Effects) > 0 {
 			return &core.Violation{Oracle: "no-internal-error", Signature: "internal:L2", Expected: "never an internal or type error",
@@ -361,8 +368,13 @@ func (d *D) check(sc *core.Scenario, ctx *core.Ctx) *core.Violation {
 			}
 			return nil
 		}
+		evaluator.SimTypeMonOn = true
+		evaluator.SimTypeMonTake()
+		checks0 := evaluator.SimTypeMonChecks
 		o := d.runStream(sc)
+		typeMon := evaluator.SimTypeMonTake()
 		if ctx != nil {
+			ctx.Inc("typemon_checks", evaluator.SimTypeMonChecks-checks0)
 			ctx.Inc("evaluations", 1)
 			ctx.Inc("stream_runs", 1)
 			ctx.Inc(fmt.Sprintf("stream_status:%d", o.status), 1)
@@ -389,6 +401,9 @@ func (d *D) check(sc *core.Scenario, ctx *core.Ctx) *core.Violation {
 				Expected: "execution ends by normal completion, a documented Evy panic, exit, a failed test or an external stop – never by crashing the host runtime",
 				Observed: map[string]any{"panic": trunc(o.hostPanic, 300), "top_evy_frame": o.topFrame, "stdin": trunc(sc.Stdin, 200), "stdin_bytes": len(sc.Stdin), "stdin_chunks": len(sc.StdinChunks), "stdout_so_far": trunc(o.stdout, 300)},
 				Match:    map[string]string{"outcome": "host-panic", "top_evy_frame": o.topFrame, "value": sigOf(o.hostPanic)}}
+		}
+		if v := typeMonViolation(typeMon, "stream"); v != nil {
+			return v
 		}
 		if strings.Contains(o.stderr, "internal error") {
 			return &core.Violation{Oracle: "no-internal-error", Signature: "internal:stream", Expected: "never an internal or type error",
@@ -419,6 +434,9 @@ func (d *D) check(sc *core.Scenario, ctx *core.Ctx) *core.Violation {
 			ctx.Sched(prng.HashString(fmt.Sprint(sc.Faults, len(sc.Events), len(sc.Inputs))))
 		}
 	}
+	if ctx != nil {
+		ctx.Inc("typemon_checks", res.TypeMonChecks)
+	}
 	if !res.Accepted {
 		if ctx != nil && res.EndClass == core.EndParserCrash {
 			ctx.Inc("parser_crash_observed_outside_scope(C03)", 1)
@@ -441,6 +459,9 @@ func (d *D) check(sc *core.Scenario, ctx *core.Ctx) *core.Violation {
 		return &core.Violation{Oracle: "stopped-only-when-stopped", Signature: "stopped-without-stop", Expected: "'stopped' only after an external stop",
 			Observed: obs(), Match: map[string]string{"outcome": "stopped-without-stop"}}
 	}
+	if v := typeMonViolation(res.TypeMon, "L1"); v != nil {
+		return v
+	}
 	// values that crossed the boundary carry their declared type
 	if res.P != nil {
 		for _, e := range res.P.Effects {
@@ -454,6 +475,25 @@ func (d *D) check(sc *core.Scenario, ctx *core.Ctx) *core.Violation {
 		}
 	}
 	return nil
+}
+
+// typeMonViolation turns the first mismatch the run-time type monitor saw into a violation.
+// The monitor sits around the evaluator's central eval method (xform): the value of every
+// expression node must be a possible value of the static type the parser gave the node, an
+// any must hold a concrete non-any type and a value of that type, and a map's key order and
+// entries must agree.
+func typeMonViolation(tm, level string) *core.Violation {
+	if tm == "" {
+		return nil
+	}
+	f := strings.SplitN(tm, "|", 4)
+	for len(f) < 4 {
+		f = append(f, "")
+	}
+	return &core.Violation{Oracle: "runtime-type", Signature: "typemon:" + f[0] + ":" + f[1] + ":" + trunc(sigOf(f[2]), 50),
+		Expected: "at run time every value has the type the parser assigned to its expression, and a value stored in an any carries a concrete non-any type",
+		Observed: map[string]any{"level": level, "node": f[0], "static_type": f[1], "value": f[2], "where": trunc(f[3], 200)},
+		Match:    map[string]string{"outcome": "runtime-type", "node": f[0], "static_type": f[1]}}
 }
 
 // sigOf keeps the stable part of a message (no positions, no values).
@@ -556,7 +596,7 @@ func (d *D) Describe(ev *core.Evidence, st *core.Stats) {
 	ev.Coverage["faults_injected"] = faults
 	ev.Coverage["end_classes"] = ends
 	ev.Coverage["probes"] = map[string]int64{"stream_runs_with_svg_platform": c["stream_runs_with_svg_platform"], "l2_runs": c["l2_runs"], "events_handled": c["events_handled"],
-		"parser_crashes_seen_and_skipped(C03)": c["parser_crash_observed_outside_scope(C03)"], "programs_rejected_by_parser": c["programs_rejected_by_parser"],
+		"runtime_type_monitor_values_checked": c["typemon_checks"], "parser_crashes_seen_and_skipped(C03)": c["parser_crash_observed_outside_scope(C03)"], "programs_rejected_by_parser": c["programs_rejected_by_parser"],
 		"eof_in_the_middle_of_a_line": c["fired:eof-in-the-middle-of-a-line"], "eof_before_first_byte": c["fired:eof-before-first-byte"]}
 	ev.Coverage["simulated_time_s"] = float64(c["simulated_ns"]) / 1e9
 	ev.Coverage["steps"] = c["steps"]
@@ -564,6 +604,11 @@ func (d *D) Describe(ev *core.Evidence, st *core.Stats) {
 		"real":                {"lexer", "parser", "evaluator", "builtins", "stream runs: kong, runCmd.Run, cli.Platform (bufio reader, writer)"},
 		"real in the L2 runs": {"pkg/wasm glue incl. alloc/getString string marshalling of event payloads"},
 		"stub":                {"L1: platform (SimPlatform) and event loop", "L2: the browser (simjs)", "stream runs: os.Stdin/Stdout/Stderr/ReadFile/Exit (simos)"}}
+	if evaluator.SimTypeMonAvailable {
+		ev.Coverage["runtime_type_monitor"] = "installed around Evaluator.eval by source rewriting: every expression value is checked against the static type of its node"
+	} else {
+		ev.Coverage["runtime_type_monitor"] = "UNAVAILABLE on this tree (Evaluator.eval or the value types are not in their usual shape); only the outcome monitor ran"
+	}
 	ev.Assumptions = []string{
 		"scoped claim: type soundness over all programs is a statement about pure functions and is not decided here; this check decides the part of the quantifier that arrives through the platform boundary (inputs and their end, event payloads, sleeps, stop)",
 		"events are delivered to registered handlers only, with the arity and Go types docs/builtins.md prescribes",
